@@ -52,7 +52,7 @@ from simkit.rng import seed_globals, unit  # noqa: E402
 from simkit.world import InvalidScenario, Monitor, Violation, result, run_sim  # noqa: E402
 
 PROPERTY = "C18"
-RUNS = {"quick": 6000, "thorough": 1_000_000}
+RUNS = {"quick": 4000, "thorough": 1_000_000}
 WALL = {"quick": 50, "thorough": 1500}
 BATCH = {"quick": 100, "thorough": 400}
 RULE = (
@@ -95,6 +95,9 @@ EXPECTED_PROBES = [
     "probe.crdt_converged_all", "probe.self_merge", "probe.chain_forward", "probe.lww_tie_physical_logical",
     "probe.orset_concurrent_add_remove", "probe.store_key_learned_by_gossip", "probe.store_converged_all",
     "probe.orset_nonstring_elements_through_dict", "probe.store_learned_key_then_local_update",
+    "probe.orset_stale_state_merged_after_remove", "probe.orset_add_wins_over_concurrent_remove",
+    "probe.orset_tombstones_through_dict", "probe.store_orset_stale_state_merged_after_remove",
+    "probe.store_orset_add_wins_over_concurrent_remove",
     "fault.partition", "fault.loss", "fault.pause",
 ]
 SHRINK_SKIP = ("klass", "crdt", "variant", "n_nodes")
@@ -167,13 +170,13 @@ VIAS = ["dict", "dict", "dict2", "copy", "live"]
 
 def gen_crdt(rng):
     n = rng.randint(2, 5)
-    kind = rng.choice(["gcounter", "pncounter", "lww", "orset", "orset"])
+    kind = rng.choice(["gcounter", "pncounter", "lww", "orset", "orset", "orset"])
     horizon = rng.choice([0.05, 0.2])
     variant = "default"
     sc = {"klass": "crdt", "crdt": kind, "n_nodes": n, "seed": rng.getrandbits(48), "net": _gen_net(rng),
           "faults": _gen_faults(rng, n, horizon), "clock_models": _gen_clock_models(rng, n)}
     if kind == "orset":
-        variant = rng.choice(["full", "full", "add-only", "private-remove", "private-remove"])
+        variant = rng.choice(["full", "full", "full", "full", "full", "add-only", "private-remove"])
         sc["elem"] = rng.choice(["str", "str", "int", "mixed"])
     if kind == "lww":
         variant = rng.choice(["hlc", "manual", "manual"])
@@ -215,7 +218,8 @@ def gen_crdt(rng):
                     ops.append({"t": t, "node": node, "kind": "addrem", "x": f"p{priv}"})
                     priv += 1
             else:
-                ops.append({"t": t, "node": node, "kind": rng.choice(["add", "add", "remove"]), "x": rng.randrange(4)})
+                ops.append({"t": t, "node": node, "kind": rng.choice(["add", "add", "remove", "remove", "addrem"]),
+                            "x": rng.randrange(rng.choice([2, 4]))})
     sc["ops"] = ops
     sc["sync_rounds"] = rng.choice([0, 1, 1, 2])
     sc["sync_via"] = rng.choice(VIAS)
@@ -224,11 +228,11 @@ def gen_crdt(rng):
 
 def gen_store(rng):
     n = rng.randint(2, 5)
-    kind = rng.choice(["gcounter", "gcounter", "pncounter", "lww", "orset"])
+    kind = rng.choice(["gcounter", "pncounter", "lww", "orset", "orset"])
     horizon = rng.choice([0.6, 1.5])
     variant = "default"
     if kind == "orset":
-        variant = rng.choice(["full", "add-only", "add-only"])
+        variant = rng.choice(["full", "full", "full", "add-only"])
     keys = [f"k{i}" for i in range(rng.randint(1, 3))]
     sc = {"klass": "store", "crdt": kind, "variant": variant, "n_nodes": n, "seed": rng.getrandbits(48),
           "elem": rng.choice(["str", "int"]) if kind == "orset" else "str",
@@ -249,7 +253,8 @@ def gen_store(rng):
         elif kind == "lww":
             op.update(kind="set")
         else:
-            op.update(kind="add" if variant == "add-only" else rng.choice(["add", "add", "remove"]), x=rng.randrange(3))
+            op.update(kind="add" if variant == "add-only" else rng.choice(["add", "add", "remove", "remove"]),
+                      x=rng.randrange(rng.choice([2, 3])))
         ops.append(op)
     sc["ops"] = ops
     return sc
@@ -627,6 +632,27 @@ class Spec:
         return frozenset(out)
 
 
+def _orset_probes(spec, pre_seen, incoming_seen, pr):
+    """Which OR-set situations does this merge exercise (probes only)."""
+    if spec.kind != "orset":
+        return
+    for r, o in spec.ops.items():
+        if o["kind"] != "remove" or not (pre_seen >> r) & 1 or (incoming_seen >> r) & 1:
+            continue
+        # receiver knows remove r, the incoming state does not: does it still carry an add that r observed?
+        if any(a["kind"] == "add" and a["x"] == o["x"] and (spec.observed[r] >> i) & 1 and (incoming_seen >> i) & 1
+               for i, a in spec.ops.items()):
+            pr["stale_state_after_remove"] += 1
+            break
+    both = pre_seen | incoming_seen
+    for r, o in spec.ops.items():
+        if o["kind"] == "remove" and (both >> r) & 1 and any(
+                a["kind"] == "add" and a["x"] == o["x"] and (both >> i) & 1 and not (spec.observed[r] >> i) & 1
+                and not (spec.observed.get(i, 0) >> r) & 1 for i, a in spec.ops.items()):
+            pr["add_wins"] += 1
+            break
+
+
 def _elem(sc, x):
     if isinstance(x, str):
         return x
@@ -723,7 +749,7 @@ class ReplicaWorld:
         self.spec = Spec(self.kind)
         self.world = None
         self.probes = {"self_merge": 0, "chain": 0, "merges": 0, "dup": 0, "lww_tie": 0, "conc_add_rm": 0,
-                       "checks": 0}
+                       "checks": 0, "stale_state_after_remove": 0, "add_wins": 0, "tombstone_round_trip": 0}
         self.vias = set()
         self.msg_seq = 0
         self.msg_seen = {}
@@ -832,6 +858,7 @@ class ReplicaWorld:
             x = _elem(self.sc, op.get("x", 0))
             if k in ("add", "addrem"):
                 c.add(x)
+                sp.observed[sp.new_id()] = node.seen
                 node.seen |= 1 << sp.add_op({"kind": "add", "x": x})
             if k in ("remove", "addrem"):
                 oid = sp.new_id()
@@ -852,6 +879,10 @@ class ReplicaWorld:
         self.msg_seen[key] = self.msg_seen.get(key, 0) + 1
         if self.msg_seen[key] > 1:
             self.probes["dup"] += 1
+        _orset_probes(self.spec, node.seen, seen, self.probes)
+        if self.kind == "orset" and md["via"] in ("dict", "dict2") and any(
+                o["kind"] == "remove" for i, o in self.spec.ops.items() if (seen >> i) & 1):
+            self.probes["tombstone_round_trip"] += 1
         node.crdt.merge(other)
         node.seen |= seen
         self.probes["merges"] += 1
@@ -919,6 +950,9 @@ def run_crdt(sc):
         "probe.self_merge": int(pr["self_merge"] > 0), "probe.chain_forward": int(pr["chain"] > 0),
         "probe.dup_delivered": int(pr["dup"] > 0), "probe.lww_tie_physical_logical": int(pr["lww_tie"] > 0),
         "probe.orset_concurrent_add_remove": int(pr["conc_add_rm"] > 0),
+        "probe.orset_stale_state_merged_after_remove": int(pr["stale_state_after_remove"] > 0),
+        "probe.orset_add_wins_over_concurrent_remove": int(pr["add_wins"] > 0),
+        "probe.orset_tombstones_through_dict": int(pr["tombstone_round_trip"] > 0),
         "crdt_checks": pr["checks"], "crdt_merges": pr["merges"], "budget_runs": int(status == "budget"),
     }
     for v in sorted(rw.vias):
@@ -967,6 +1001,7 @@ class RecStore(CRDTStore):
             raise RuntimeError("harness: merged a state that was not logged at serialisation")
         for key, bits in info[1].items():
             if key in remote_state:
+                _orset_probes(self.sw.specs[key], self.seen.get(key, 0), bits, self.sw.pr)
                 self.seen[key] = self.seen.get(key, 0) | bits
         self.sw.merges += 1
         if set(self._crdts) - had:
@@ -998,6 +1033,7 @@ class StoreWorld:
         if not self.keys:
             raise InvalidScenario("keys")
         self.sent = {}
+        self.pr = {"stale_state_after_remove": 0, "add_wins": 0}
         self.merges = 0
         self.dirty = []
         self.specs = {k: Spec(self.kind) for k in self.keys}
@@ -1084,6 +1120,7 @@ class StoreWorld:
         if kind in ("inc", "dec"):
             s.seen[k] = seen | 1 << sp.add_op({"kind": kind, "n": op["n"]})
         elif kind == "add":
+            sp.observed[sp.new_id()] = seen
             s.seen[k] = seen | 1 << sp.add_op({"kind": "add", "x": op["x"]})
         elif kind == "remove":
             oid = sp.new_id()
@@ -1171,6 +1208,8 @@ def run_store(sc):
         "probe.store_converged_all": int(converged and len(sw.updated) >= 2),
         "store_merges": sw.merges, "store_checks": sw.checks, "budget_runs": int(status == "budget"),
         "store_gossip_msgs": sum(s.stats.gossip_sent for s in sw.stores),
+        "probe.store_orset_stale_state_merged_after_remove": int(sw.pr["stale_state_after_remove"] > 0),
+        "probe.store_orset_add_wins_over_concurrent_remove": int(sw.pr["add_wins"] > 0),
         "probe.store_learned_key_then_local_update": int(any(s.learned and s.name in sw.updated for s in sw.stores)),
         "probe.orset_nonstring_elements_through_dict": int(sc["crdt"] == "orset" and sc.get("elem") == "int" and sw.merges > 0),
     }
